@@ -336,7 +336,7 @@ func runRun(c *core.Ctx) {
 		if alldone {
 			break
 		}
-		c.Fail("HARNESS.stuck", "no event to inject but drivers are not done: %s", c.S.StalledString())
+		c.Stuck("no event to inject but drivers are not done: %s", c.S.StalledString())
 		return
 	}
 	w.k.ClearContext()
